@@ -4,7 +4,8 @@ Rebinds `open` and `os` *as seen from frappy.persistent* (module-global shadowin
 the work.  Counts operations of writing code (open-for-write, each write, close, rename, remove, mkdir); at
 operation k it raises OSError (I/O failure model) or SimulatedCrash (process-crash model, BaseException so
 that no `except Exception` can swallow it).  A crash during a write first performs a partial write.
-Operations that returned are on disk (no power-loss model)."""
+Data written by the process stays in its own buffer until flush / close (a crash loses it); what was flushed is on
+disk (no power-loss model)."""
 import builtins
 import os
 import types
@@ -42,31 +43,59 @@ class Injector:
 
 
 class _File:
+    """a file opened for writing by the code under test.
+
+    Written data sits in the process's own buffer until it is flushed (buffer full, flush(), close()): a process
+    crash loses it, and a failing flush at close (disk full) discards it.  Only what was flushed is on disk."""
+    BUFSIZE = 8192
+
     def __init__(self, inj, f):
         self._inj = inj
         self._f = f
+        self._buf = []
+
+    def _flush_to_os(self):
+        data, self._buf = self._buf, []
+        for d in data:
+            self._f.write(d)
+        self._f.flush()
 
     def write(self, s):
         def partial():
-            self._f.write(s[:len(s) // 2])
-            self._f.flush()
+            # the crash hits while this write is being carried out: what was buffered and half of it reach the disk
+            self._buf.append(s[:len(s) // 2])
+            self._flush_to_os()
         self._inj.tick('write', partial)
-        return self._f.write(s)
+        self._buf.append(s)
+        if sum(len(d) for d in self._buf) >= self.BUFSIZE:
+            self._flush_to_os()
+        return len(s)
+
+    def flush(self):
+        self._inj.tick('flush')
+        self._flush_to_os()
 
     def __enter__(self):
         return self
 
     def __exit__(self, etype, *a):
+        crashed = etype is not None and issubclass(etype, SimulatedCrash)
         try:
-            if etype is None or not issubclass(etype, SimulatedCrash):
-                self._inj.tick('close')
+            if not crashed:
+                self._inj.tick('close')        # may fail: the flush at close does not succeed, the buffered data is lost
+                self._flush_to_os()
         finally:
-            self._f.close()   # the OS closes (and keeps) what was written
+            self._buf = []                    # a dead process (or a failed flush) leaves nothing more behind
+            self._f.close()
         return False
 
     def close(self):
-        self._inj.tick('close')
-        self._f.close()
+        try:
+            self._inj.tick('close')
+            self._flush_to_os()
+        finally:
+            self._buf = []
+            self._f.close()
 
     def __getattr__(self, name):
         return getattr(self._f, name)
